@@ -23,17 +23,25 @@ SPEC = {
         'prepare': prepare,
         'model_module': 'Model.C17_Rendezvous', 'imports': ['From Wesh Require Import Gen.Rotation.'], 'scope': 'Z_scope',
         'shard': 200, 'timeout': 600, 'search_n': 3000,
+    }, {
+        'name': 'marshaler', 'pkg': '.', 'test': 'TestVerifC17Marshaler',
+        'files': [('pkg/rendezvous', 'harness/rendezvous/zz_verif_clock.go'),
+                  ('.', 'harness/root/zz_verif_c17mm_test.go')],
+        'prepare': prepare,
+        'model_module': 'Model.C17_Rendezvous', 'imports': ['From Wesh Require Import Gen.Rotation.'], 'scope': 'Z_scope',
+        'shard': 100, 'timeout': 900, 'search_n': 600,
     }],
     'rule': 'pure stream: random instants (incl. exact period boundaries +-1 s, sub-second parts) and intervals for '
             'RoundTimePeriod/NextTimePeriod and determinism/sensitivity of GenerateRendezvousPointForPeriod; history stream: '
             'random histories of two RotationIntervals sharing a fake clock (register / resolve topic / exchange rotation value / '
             'explicit rotation value of previous-current-next period / clock advance to boundary-1ns, boundary, +1ns, across 1-2 '
             'periods, past the grace period); non-trivial = boundary instant, or a history with a clock advance, exchange, '
-            'explicit rotation value or refused lookup; distinct = distinct case term',
+            'explicit rotation value or refused lookup; marshaler stream: the same histories through two OrbitDBMessageMarshalers of the root package (registration as storeForGroup does it, Marshal on one side / Unmarshal on the other, heads and sender device checked); distinct = distinct case term',
     'trusted_base': [
         'Coq 8.16.1 kernel; vm_compute for evaluating the model on cases',
         'no axioms',
         'translator gen/rotation.go (comparison operator of Point.IsExpired -> Gen/Rotation.v)',
+        'harness/root/zz_verif_c17mm_test.go (head-exchange marshaler over the same fake clock)',
         'harness/rendezvous (fake clock substituted for time.Now/Until/AfterFunc by textual rewriting of the current rotation.go; timers run synchronously in creation order when the clock passes them)',
         'modelled, not verified: HMAC-SHA256 (symbolic, injective in key and message), package time',
     ],
